@@ -13,8 +13,9 @@ SUFFIX = r"(_refines_of_le|_general_of_le|_anyorder_of_le|_disciplined|_sequence
 names = [n for n in re.findall(r"^theorem ([\w']+)", src, re.M) if re.search(SUFFIX, n)]
 ties = sorted({t["name"].split(".")[-1] for p in P for t in P[p]["theorems"] if t["name"].startswith("Flyt.Tie.")}, key=len, reverse=True)
 added = {}
-for p in P:
-    P[p]["theorems"] = [t for t in P[p]["theorems"] if t["module"] != module]
+mine = {ns + "." + n for n in names}
+for p in P:   # theorems of this module registered by hand under other names are kept
+    P[p]["theorems"] = [t for t in P[p]["theorems"] if not (t["module"] == module and t["name"] in mine)]
 for n in names:
     func = next((f for f in ties if n == f or n.startswith(f + "_")), None)
     alias = {"Submit_labels": "WorkerPool_Submit", "Wait_labels": "WorkerPool_Wait", "Close_labels": "WorkerPool_Close",
